@@ -72,7 +72,8 @@ def blob_members(t):
         elif x[0] == 'loc' and 0:
             pass
     rec(t)
-    return names
+    # pseudo-members the interpreter keeps for its own bookkeeping (constructor arguments) are not wire members
+    return [n for n in names if not str(n).startswith('__')]
 
 
 class Access:
